@@ -97,26 +97,30 @@ Proof.
     clear Hd Hn. unfold ex_L. do 3 (destruct n as [n|n|]; try done).
 Qed.
 
+(** the receiver has no node limit *)
+Lemma ex_unbounded : max_nodes ex_r = None.
+Proof. vm_compute. reflexivity. Qed.
+
 Local Opaque ex_s ex_r ex_w ex_pf.
 (** the instance of [pickle_roundtrip_any_counts] *)
 Lemma ex_instance :
   let r' := snd (load_pickle ex_pf false ex_r) in
   Inv ex_s ∧ Forall (valid ex_s) (roots_values ex_roots) ∧
   dump_pickle ex_roots ex_order ex_vorder ex_s = (Ok ex_pf, ex_s) ∧
-  Inv ex_r ∧ last_len ex_r = Some 1 ∧ Counts ex_r ex_L ∧
+  Inv ex_r ∧ max_nodes ex_r = None ∧ last_len ex_r = Some 1 ∧ Counts ex_r ex_L ∧
   (∃ roots', fst (load_pickle ex_pf false ex_r) = Ok roots' ∧
              roots_rel (same_fun ex_s r') ex_roots roots') ∧
   Inv r' ∧ last_len r' = Some 1 ∧ Counts r' ex_L.
 Proof.
   intros r'. destruct ex_good as [(HIs&_) (HIr&_)].
   destruct (pickle_roundtrip_any_counts ex_s ex_roots ex_order ex_vorder ex_pf ex_s ex_r
-              HIs ex_roots_valid ex_dump HIr)
+              HIs ex_roots_valid ex_dump HIr ex_unbounded)
     as (_&roots'&r2&E&HI'&_&Hll&_&_&_&Hrel&_&_&HC).
   assert (Er : r' = r2) by (unfold r'; rewrite E; reflexivity).
   clearbody r'. subst r'.
   assert (Hl : last_len ex_r = Some 1) by (vm_compute; reflexivity).
   split; [exact HIs|]. split; [exact ex_roots_valid|]. split; [exact ex_dump|].
-  split; [exact HIr|]. split; [exact Hl|]. split; [exact ex_counts|].
+  split; [exact HIr|]. split; [exact ex_unbounded|]. split; [exact Hl|]. split; [exact ex_counts|].
   split; [exists roots'; rewrite E; split; [reflexivity|exact Hrel]|].
   split; [exact HI'|]. split; [rewrite Hll; exact Hl|]. exact (HC _ ex_counts).
 Qed.
